@@ -247,8 +247,9 @@ func (l *Lexer) GetLineAndCol(pos int) (string, int, int) {
 	col := 1
 	lineStart := 0
 	inLine := false
-	for i, r := range l.src {
-		if r == '\n' {
+	// pos is a byte offset, so iterate over bytes rather than runes
+	for i := 0; i < len(l.src); i++ {
+		if l.src[i] == '\n' {
 			if inLine {
 				return l.src[lineStart:i], line, col
 			}
